@@ -1,18 +1,18 @@
 SPECIFICATION SpecAtomic
 CONSTANTS
-  NC = 2
+  NC = 1
   NW = 1
   Mode = "exact"
   AtomicQueue = TRUE
   StaleTimeout = FALSE
   StaleLists = FALSE
   ThresholdBefore = TRUE
-  ProbeCheckUpdated = TRUE
+  ProbeCheckUpdated = FALSE
   QuotaErrors = FALSE
   InitStates = {"Queued"}
-  B <- BCrash
+  B <- BNone
   MaxHist = 0
 VIEW view
-INVARIANTS TypeOK AtMostOneProc OneRunner
-PROPERTIES Refines
+INVARIANTS TypeOK AtMostOneProcAll
+PROPERTIES RefinesAll
 CHECK_DEADLOCK FALSE
